@@ -36,6 +36,9 @@ enum Atom {
     /// v is paused (`stop_tracking`), cloned, and both handles are resumed; the clone then stands
     /// in for v in every later use (and as the root of the pass when v is the root)
     PausedClone(usize),
+    /// the handle of v (the root included) is dropped after the pass: everything still held must
+    /// show what it shows when v is kept
+    DropAfterPass(usize),
 }
 
 fn fmt_atom(a: &Atom) -> String {
@@ -50,6 +53,7 @@ fn fmt_atom(a: &Atom) -> String {
         Atom::Reflag(v, k) => format!("flag-round-trip(v{},after-node{})", v, k),
         Atom::FlagAlias(v) => format!("held-alias-with-flipped-flags(v{})", v),
         Atom::PausedClone(v) => format!("cloned-while-paused(v{})", v),
+        Atom::DropAfterPass(v) => format!("drop-after-pass(v{})", v),
         Atom::PostPassAlias(v, again) => format!("alias-reflagged-after-pass(v{},{})", v, if *again { "untracked-then-tracked" } else { "untracked" }),
     }
 }
@@ -263,6 +267,13 @@ fn script(p: &Program, ops: &[OpK], root: usize, atoms: &[Atom], tracked: &[bool
         }
     }
     for v in 0..nv {
+        if atoms.contains(&Atom::DropAfterPass(v)) {
+            let s = slot_of[v]?;
+            acts.push(Act::Drop { slot: s as u8 });
+            slot_of[v] = None;
+        }
+    }
+    for v in 0..nv {
         if let Some(s) = slot_of[v] {
             views[v].push(s);
         }
@@ -333,6 +344,7 @@ fn atoms_for(p: &Program, root: usize) -> Vec<Atom> {
         out.push(Atom::PausedClone(v));
         out.push(Atom::PostPassAlias(v, false));
         out.push(Atom::PostPassAlias(v, true));
+        out.push(Atom::DropAfterPass(v));
         let first = if v < p.nl() { 0 } else { v - p.nl() };
         for k in first..p.nodes.len() {
             out.push(Atom::Reflag(v, k));
@@ -340,6 +352,113 @@ fn atoms_for(p: &Program, root: usize) -> Vec<Atom> {
     }
     out.push(Atom::RootClone);
     out
+}
+
+/// A gradient installed by hand (`*a.gradient_mut() = Some(g)`), of the array's own dimensions or of
+/// dimensions that broadcast against them, then one or two passes: what `a` ends up holding must
+/// not depend on whether the program still holds `g`, a clone of `g`, a view of `g`, or nothing.
+fn installed_gradient_cases(l: &mut Local, var: u64) {
+    use corgi::array::Array;
+    use corgi::numbers::Float;
+    let fl = |v: &[f64]| -> Vec<Float> { v.iter().map(|x| *x as Float).collect() };
+    let leaf_dims: Vec<Vec<usize>> = vec![vec![3], vec![2, 3], vec![2, 1, 3]];
+    for ad in &leaf_dims {
+        let n = crate::refmodel::numel(ad);
+        let mut gdims: Vec<Vec<usize>> = Vec::new();
+        for g in [ad.clone(), vec![1], vec![3], vec![1, 3]] {
+            if !gdims.contains(&g) {
+                gdims.push(g);
+            }
+        }
+        for gd in &gdims {
+            for gkind in 0..2u8 {
+                for prog in 0..4u8 {
+                    for passes in 1..=2usize {
+                        let case = || format!("installed gradient: a={} g={} ({}) program={} passes={}", crate::shapes::fmt_dims(ad), crate::shapes::fmt_dims(gd), if gkind == 0 { "zeros" } else { "generic" }, ["a*b", "a+a", "sum(a*a)", "neg(a)"][prog as usize], passes);
+                        if !l.want(&case) {
+                            continue;
+                        }
+                        l.states += 1;
+                        let gn = crate::refmodel::numel(gd);
+                        let gv: Vec<f64> = if gkind == 0 { vec![0.0; gn] } else { crate::shapes::vals(gn, 2, var) };
+                        let av = crate::shapes::vals_signed(n, 0, var);
+                        let bv = crate::shapes::vals(n, 1, var);
+                        // handle variants: 0 moved in, 1 original kept, 2 clone kept, 3 view kept, 4 kept and dropped before the pass
+                        let mut results: Vec<Result<(Vec<usize>, Vec<Float>), String>> = Vec::new();
+                        for variant in 0..5u8 {
+                            l.transitions += 1;
+                            let (ad2, gd2, av2, bv2, gv2) = (ad.clone(), gd.clone(), fl(&av), fl(&bv), fl(&gv));
+                            results.push(run_catch(move || {
+                                let a = Array::from((ad2.clone(), av2)).tracked();
+                                let b = Array::from((ad2.clone(), bv2)).tracked();
+                                let g = Array::from((gd2.clone(), gv2));
+                                let mut kept: Vec<Array> = Vec::new();
+                                match variant {
+                                    0 => *a.gradient_mut() = Some(g),
+                                    1 => {
+                                        *a.gradient_mut() = Some(g.clone());
+                                        kept.push(g);
+                                    }
+                                    2 => {
+                                        kept.push(g.clone());
+                                        kept.push(g.clone());
+                                        *a.gradient_mut() = Some(g);
+                                    }
+                                    3 => {
+                                        kept.push(g.reshape(gd2.clone()));
+                                        *a.gradient_mut() = Some(g);
+                                    }
+                                    _ => {
+                                        let c = g.clone();
+                                        *a.gradient_mut() = Some(g);
+                                        drop(c);
+                                    }
+                                }
+                                let r = match prog {
+                                    0 => &a * &b,
+                                    1 => &a + &a,
+                                    2 => (&a * &a).sum(ad2.len()),
+                                    _ => -&a,
+                                };
+                                for _ in 0..passes {
+                                    r.backward(None);
+                                }
+                                let out = a.gradient().as_ref().map(|x| (x.dimensions().to_vec(), x.values().to_vec())).unwrap();
+                                // what the program kept must not have changed either
+                                for k in &kept {
+                                    assert!(k.dimensions() == &gd2[..], "a kept handle of the installed gradient changed its dimensions");
+                                }
+                                out
+                            }));
+                        }
+                        l.validated += 1;
+                        match &results[0] {
+                            Err(m) => l.violation("installed-gradient", case(), format!("panicked: {}", m)),
+                            Ok(base) => {
+                                l.outcome(digest_vals(&base.0, &base.1));
+                                for (vi, r) in results.iter().enumerate().skip(1) {
+                                    let what = ["moved in", "original kept", "clones kept", "a view kept", "a clone dropped before the pass"][vi];
+                                    match r {
+                                        Err(m) => {
+                                            l.violation("installed-gradient", case(), format!("{}: panicked: {}", what, m));
+                                            break;
+                                        }
+                                        Ok(o) => {
+                                            if o.0 != base.0 || o.1.len() != base.1.len() || o.1.iter().zip(&base.1).any(|(x, y)| x.to_bits() != y.to_bits()) {
+                                                l.violation("installed-gradient", case(), format!("with the installed array moved in, a holds {:?} {}; with {} it holds {:?} {}", base.0, fmt_vals(&base.1), what, o.0, fmt_vals(&o.1)));
+                                                break;
+                                            }
+                                        }
+                                    }
+                                }
+                            }
+                        }
+                        l.sample(&case);
+                    }
+                }
+            }
+        }
+    }
 }
 
 pub fn explore(opts: &Opts) -> Explored {
@@ -627,6 +746,7 @@ pub fn explore(opts: &Opts) -> Explored {
     total.merge(local);
     base_programs += *progs.lock().unwrap();
     }
+    installed_gradient_cases(&mut total, var);
     let (_, singles_upto, pairs_upto) = (0, 3usize, if opts.tier == Tier::Quick { 2usize } else { 3 });
     let masks: Vec<u32> = vec![0b111, 0b011, 0b101];
     Explored {
